@@ -79,14 +79,27 @@ def compilePushData (data : Bytes) : M Bytes :=
       | none, some (_, _, _) => .error (.py "error")      -- struct.error: length does not fit
       | none, none => .error (.py "TypeError")            -- bytes([None])
 
-/-- `BitcoinSolutionChecker._delete_signature(script, sig_blob)`: drop every instruction whose bytes equal the
-canonical push of `sig_blob` (sections are `script[pc:new_pc]`, truncated by slicing at the end) -/
+/-- the `while pc < len(script)` loop of `BitcoinSolutionChecker.delete_subscript`: sections that differ from `sub` are
+kept; at an instruction `get_opcode` cannot decode (`is_ok` false: a push cut short by the end of the script) the rest of
+the script is kept as it is and the walk ends.  `fuel` as in `opcodeSpans`. -/
+def deleteSubscript (script sub : Bytes) : Nat → Nat → M Bytes
+  | 0, _ => .ok []
+  | fuel + 1, pc =>
+    if pc < script.length then do
+      let f ← getOpcode script pc false
+      if !f.isOk then pure (script.drop pc)
+      else
+        let sec := slice script pc f.pc
+        let rest ← deleteSubscript script sub fuel f.pc
+        pure ((if sec = sub then [] else sec) ++ rest)
+    else .ok []
+
+/-- `BitcoinSolutionChecker._delete_signature(script, sig_blob)`: `delete_subscript` of the canonical push of `sig_blob` -/
 def deleteSignature (script sigBlob : Bytes) : M Bytes := do
   let sub ← compilePushData sigBlob
   -- `if len(sig_blob) == 1: subscript = b"\x01" + sig_blob` (by length alone, never OP_1..OP_16/OP_1NEGATE)
   let sub := if sigBlob.length = 1 then 1 :: sigBlob else sub
-  let spans ← opcodeSpans script script.length 0
-  pure (spans.flatMap (fun (_, a, b) => let sec := slice script a b; if sec = sub then [] else sec))
+  deleteSubscript script sub script.length 0
 
 /-- `_make_sighash_f`: `for sig_blob in sig_blobs: script = _delete_signature(script, sig_blob)` -/
 def deleteSignatures (script : Bytes) : List Bytes → M Bytes
